@@ -113,6 +113,25 @@ def run_unit(args):
             budget = min(budget, int(hb) * (1 if tier == 'quick' else 4))
         signal.signal(signal.SIGALRM, _on_alarm)
         signal.alarm(budget)
+        # the alarm handler only runs between bytecodes: a solver call that ignores its own timeout (seen: nlsat / integer models on
+        # changed code) would hold the unit for ever.  A watchdog thread (the z3 binding releases the GIL) cancels the running
+        # query once the budget is spent, so that control returns to Python and the pending alarm is delivered.
+        import threading
+        unit_done = threading.Event()
+
+        def _watchdog():
+            if unit_done.wait(budget + 2):
+                return
+            import z3 as _z3
+            for _ in range(200):
+                try:
+                    _z3.main_ctx().interrupt()
+                except Exception:
+                    pass
+                if unit_done.wait(3):
+                    return
+            os._exit(70)     # nothing helped: give the pool its worker back (the parent reports the lost unit as a harness error)
+        threading.Thread(target=_watchdog, daemon=True).start()
         from .ctx import SymCtx
         stubs.install()
         load_harnesses(prop)
@@ -218,6 +237,10 @@ def run_unit(args):
         try:
             import signal as _sig
             _sig.alarm(0)
+        except Exception:
+            pass
+        try:
+            unit_done.set()
         except Exception:
             pass
     out['wall_s'] = time.time() - t0
@@ -372,9 +395,24 @@ def run_property(prop: str, tier: str, seed: int, jobs: int = 0, only: Optional[
             results.append(run_unit(u))
     else:
         ctxm = mp.get_context('fork')
+        # no result for (unit budget + 12 min) means a worker is lost or stuck beyond what its own watchdog could cancel:
+        # the pool is torn down and every unit without a result is reported as a harness error (never as a pass)
+        stall = int(os.environ.get('VERIF_UNIT_TIMEOUT', '900' if tier == 'quick' else '7200')) + 720
         with ctxm.Pool(min(jobs, len(units)), maxtasksperchild=50) as pool:
-            for r in pool.imap_unordered(run_unit, units, chunksize=1):
-                results.append(r)
+            it = pool.imap_unordered(run_unit, units, chunksize=1)
+            while True:
+                try:
+                    results.append(it.next(timeout=stall))
+                except StopIteration:
+                    break
+                except mp.TimeoutError:
+                    pool.terminate()
+                    done = {(r['harness'], r['idx']) for r in results}
+                    for u in units:
+                        if (u[0], u[4]) not in done:
+                            results.append({'harness': u[0], 'config': u[1], 'idx': u[4], 'wall_s': float(stall),
+                                            'error': f'work unit gave no result within {stall}s (worker lost or stuck): inconclusive'})
+                    break
     results.sort(key=lambda r: (r['harness'], r['idx']))
 
     errors = [r for r in results if r.get('error')]
